@@ -1393,15 +1393,20 @@ where
                             e
                         );
 
-                        matter.with_state(|state| {
-                            if let Some(id) = state
-                                .sessions
-                                .get_for_node(fab_idx, peer_node_id)
-                                .map(|s| s.id)
-                            {
-                                state.sessions.remove(id);
-                            }
-                        });
+                        // (Not when the subscription was removed in the meantime, e.g.
+                        // along with its fabric: the local fabric index might belong to
+                        // another fabric by now, and the session to one of its nodes.)
+                        if !rctx.is_cancelled() {
+                            matter.with_state(|state| {
+                                if let Some(id) = state
+                                    .sessions
+                                    .get_for_node(fab_idx, peer_node_id)
+                                    .map(|s| s.id)
+                                {
+                                    state.sessions.remove(id);
+                                }
+                            });
+                        }
 
                         // Keep the subscription to retry, but do NOT advance its
                         // watermarks: the changes/events this report was carrying
@@ -1481,6 +1486,12 @@ where
         let ids = rctx.subscription().ids();
         let mut exchange =
             Exchange::initiate(matter, self.crypto(), ids.fab_idx, ids.peer_node_id).await?;
+
+        if rctx.is_cancelled() {
+            // Removed while the session was being established (e.g. along with its fabric):
+            // nothing is to be sent any more, the subscription is dropped when `rctx` is
+            return Ok(false);
+        }
 
         if let Some(mut tx) = self.buffers.get().await {
             // Always safe as `IMBuffer` is defined to be `MAX_EXCHANGE_RX_BUF_SIZE`, which is bigger than `MAX_EXCHANGE_TX_BUF_SIZE`
@@ -1838,6 +1849,35 @@ where
                 fab_idx, e
             );
         }
+
+        // The subscriptions of the fabric go with it - right away, not when the reporter gets
+        // around to its "fabric removed" check: that check goes by the local fabric index, and it
+        // runs only between reports. While a report is in flight (e.g. to a subscriber that is
+        // not reachable after a restart) a new fabric can be commissioned and be given the same
+        // index - it would inherit the subscriptions and their persisted records.
+        let removed = self
+            .state
+            .subscriptions
+            .remove(&self.subscriptions_buffers, |sub| {
+                (sub.ids().fab_idx == fab_idx).then_some("fabric removed")
+            });
+
+        #[cfg(feature = "persistent-subscriptions")]
+        if removed {
+            // Their persisted records as well. Best-effort, as everywhere for the subscriptions
+            let result = self.kv.access(|store, buf| {
+                self.state
+                    .subscriptions
+                    .persist_all(&self.subscriptions_buffers, store, buf)
+            });
+
+            if let Err(e) = result {
+                warn!("Failed to persist subscriptions: {:?}", e);
+            }
+        }
+
+        #[cfg(not(feature = "persistent-subscriptions"))]
+        let _ = removed;
 
         #[cfg(feature = "groups")]
         self.matter.transport().notify_groups_changed();
